@@ -449,3 +449,46 @@ def copytype(repo, schema=None):
         raise AnalysisError(f"only {judged} CopyFrom sites could be typed on both sides")
     res.analysed = ["compiler/util/ir_data.py", "compiler/front_end/*.py"]
     return res
+
+
+# ---------------------------------------------------------------------------------------------------------
+def textread(repo):
+    """R-TEXTREAD (C16): a `try` that turns a failing read of a *text* file into a diagnostic (it catches IOError/OSError
+    around `open(name)` + `.read()` in text mode) must also catch the other way that read fails: UnicodeDecodeError, which
+    is a ValueError, not an IOError.  Otherwise a source file with a byte that is not valid text ends the compiler with
+    a traceback."""
+    res = RuleResult("R-TEXTREAD")
+    for m in repo.compile_path_modules():
+        for f in m.funcs.values():
+            for n in walk_no_nested_funcs(f.node):
+                if not isinstance(n, ast.Try):
+                    continue
+                reads_text = False
+                for w in ast.walk(ast.Module(body=n.body, type_ignores=[])):
+                    if isinstance(w, ast.Call) and isinstance(w.func, ast.Name) and w.func.id == "open":
+                        mode = w.args[1].value if len(w.args) > 1 and isinstance(w.args[1], ast.Constant) else \
+                            next((k.value.value for k in w.keywords if k.arg == "mode" and isinstance(k.value, ast.Constant)), "r")
+                        if "b" not in mode and "w" not in mode and "a" not in mode:
+                            reads_text = True
+                if not reads_text or not any(isinstance(c, ast.Call) and isinstance(c.func, ast.Attribute) and c.func.attr in ("read", "readlines", "readline")
+                                             for st in n.body for c in ast.walk(st)):
+                    continue
+                caught = set()
+                for h in n.handlers:
+                    if h.type is None:
+                        caught.add("BaseException")
+                    else:
+                        caught |= {x.id for x in ast.walk(h.type) if isinstance(x, ast.Name)} | {x.attr for x in ast.walk(h.type) if isinstance(x, ast.Attribute)}
+                if not caught & {"IOError", "OSError", "EnvironmentError", "FileNotFoundError"}:
+                    continue
+                res.instances += 1
+                if not caught & {"UnicodeDecodeError", "UnicodeError", "ValueError", "Exception", "BaseException"}:
+                    res.add(f"{m.rel}|{f.qualname}|decode", f"{f.qualname} reports an unreadable file (catches {sorted(caught)}) but a file that "
+                            "is not valid text raises UnicodeDecodeError from the same read and escapes: the compiler ends with a "
+                            "traceback instead of a diagnostic", m.rel, n.lineno, f.qualname)
+                else:
+                    res.samples.append(f"{f.qualname}: catches {sorted(caught)}")
+    if res.instances < 1:
+        raise AnalysisError("no guarded text read found in the drivers")
+    res.analysed = ["compiler/front_end/emboss_front_end.py"]
+    return res
